@@ -159,10 +159,10 @@ def check_c03(tier):
         corpus = corpus[: (1 if tier == "quick" else 16)]
         for w in corpus:
             w.materialise()
-        generated = (P.gen_workload("c03", s + 500000, "quick") for s in P.seeds_for("C03"))
-        return interleave(generated, corpus)
+        generated = (P.gen_workload("c03c", s + 500000, "quick") for s in P.seeds_for("C03"))
+        return interleave(generated, generated, generated, corpus)
 
-    return generic("C03", tier, P.oracle_c03, P.A_PSIM, interp, comp)
+    return generic("C03", tier, P.oracle_c03, P.A_PSIM, interp, comp, ncomp_quick=12, ncomp_thorough=64, compiled_share=0.4)
 
 
 def check_c22(tier):
